@@ -259,6 +259,14 @@ func (c *WSClient) SendRaw(b []byte) error {
 	return ws.WriteFrame(c.Conn, f)
 }
 
+// SendPing writes a ping frame (the server answers with a pong, which the strict reader skips).
+func (c *WSClient) SendPing(payload []byte) error {
+	c.wmu.Lock()
+	defer c.wmu.Unlock()
+	f := ws.MaskFrameInPlace(ws.NewPingFrame(payload))
+	return ws.WriteFrame(c.Conn, f)
+}
+
 // SendPartialFrame writes only the beginning of a frame (header + part of the payload).
 func (c *WSClient) SendPartialFrame(b []byte) error {
 	c.wmu.Lock()
